@@ -113,6 +113,11 @@ def run(repo, res, tier):
     c02.levelfield(repo, res)
     c02.arena_immut(repo, res, tier)
     sk_bash.sub_rule(repo, res, tier)
+    # what a nonterminal stands for in bash (a `<X@bash>` definition before the built-in, a plain definition before both): LOOKUP,
+    # shared with C02 / C11; and the positional `literals` array holds the automaton's literals one for one (LITLIST, shared with C04)
+    from . import c11 as _c11
+    _c11.lookup_rule(repo, res)
+    c04.litlist(repo, res, c04.typer(repo))
     res.floor("PIPE", res.count("PIPE"), 4)
     res.floor("SK-WALK", res.count("SK-WALK"), 30)
     res.floor("SK-FB", res.count("SK-FB"), 14)
